@@ -963,6 +963,63 @@ theorem getDistrict_error (G : MG α) (hG : G.WF) (v : α) (hv : v ∉ G.nodes) 
     · cases h
     · cases h; rfl
 
+/-! ## 18. the equality the results are compared with is an equivalence relation; results stay well formed -/
+
+theorem equiv_refl (G : MG α) : G.equiv G = true := by
+  rw [equiv_iff]; exact ⟨fun _ => Iff.rfl, fun _ _ => Iff.rfl, fun _ _ => Iff.rfl⟩
+
+theorem equiv_symm (G H : MG α) (h : G.equiv H = true) : H.equiv G = true := by
+  rw [equiv_iff] at h ⊢
+  exact ⟨fun v => (h.1 v).symm, fun u v => (h.2.1 u v).symm, fun u v => (h.2.2 u v).symm⟩
+
+theorem equiv_trans (G H K : MG α) (h₁ : G.equiv H = true) (h₂ : H.equiv K = true) : G.equiv K = true := by
+  rw [equiv_iff] at h₁ h₂ ⊢
+  exact ⟨fun v => (h₁.1 v).trans (h₂.1 v), fun u v => (h₁.2.1 u v).trans (h₂.2.1 u v),
+    fun u v => (h₁.2.2 u v).trans (h₂.2.2 u v)⟩
+
+/-- every well-formed graph is (equal to) one that `from_edges` builds, so quantifying over `WF` graphs is
+quantifying over everything the Python constructor can produce, in every insertion order -/
+theorem equiv_fromEdges_self (G : MG α) (hG : G.WF) : (fromEdges G.nodes G.di G.bi).equiv G = true := by
+  rw [equiv_iff]
+  refine ⟨fun v => ?_, fun u v => diEdge_fromEdges _ _ _ u v, fun u v => biEdge_fromEdges _ _ _ u v⟩
+  rw [mem_nodes_fromEdges]
+  constructor
+  · rintro (h | ⟨e, he, rfl | rfl⟩ | ⟨e, he, rfl | rfl⟩)
+    · exact h
+    · exact (hG.di_mem e he).1
+    · exact (hG.di_mem e he).2
+    · exact (hG.bi_mem e he).1
+    · exact (hG.bi_mem e he).2
+  · exact Or.inl
+
+theorem wf_removeInEdges (G : MG α) (S : List α) : (G.removeInEdges S).WF := wf_fromEdges _ _ _
+theorem wf_removeOutEdges (G : MG α) (S : List α) : (G.removeOutEdges S).WF := wf_fromEdges _ _ _
+theorem wf_removeNodes (G : MG α) (S : List α) : (G.removeNodes S).WF := wf_fromEdges _ _ _
+theorem wf_disorient (G : MG α) : G.disorient.WF := wf_fromEdges _ _ _
+theorem wf_interveneRaw {β : Type} [DecidableEq β] (G : MG α) (f : α → β) (X : List α) :
+    (G.interveneRaw f X).WF := wf_fromEdges _ _ _
+
+theorem wf_moralize (G : MG α) (hG : G.WF) : G.moralize.WF := by
+  refine ⟨?_, ?_, ?_, ?_⟩
+  · exact nodup_foldl_addBi _ _ hG.nodup
+  · unfold moralize; rw [di_foldl_addBi]; exact hG.di_nodup
+  · intro e he
+    have he' : e ∈ G.di := by unfold moralize at he; rwa [di_foldl_addBi] at he
+    exact ⟨(mem_nodes_moralize G hG _).2 (hG.di_mem e he').1, (mem_nodes_moralize G hG _).2 (hG.di_mem e he').2⟩
+  · intro e he
+    rcases mem_bi_foldl_addBi_sub _ _ _ he with h | h
+    · exact ⟨(mem_nodes_moralize G hG _).2 (hG.bi_mem e h).1, (mem_nodes_moralize G hG _).2 (hG.bi_mem e h).2⟩
+    · rcases e with ⟨x, y⟩
+      obtain ⟨n, _, hx, hy⟩ := mem_moralLinks G x y h
+      exact ⟨(mem_nodes_moralize G hG _).2 (hG.di_mem _ hx).1, (mem_nodes_moralize G hG _).2 (hG.di_mem _ hy).1⟩
+
+theorem equiv_congr_getDistrict (G H : MG α) (hG : G.WF) (hH : H.WF) (h : G.equiv H = true) (v : α)
+    (d e : List α) (hd : G.getDistrict v = .ok d) (he : H.getDistrict v = .ok e) (u : α) : u ∈ d ↔ u ∈ e := by
+  rw [equiv_iff] at h
+  rw [getDistrict_spec G hG v d hd, getDistrict_spec H hH v e he]
+  have : G.BiEdge = H.BiEdge := by funext a b; exact propext (h.2.2 a b)
+  simp [SameDistrict, this]
+
 /-! ## non-vacuity: a 5-node graph with an isolated node (4) and a node touched only by a
 bidirected edge (3) satisfies `WF`, and the operations return what the theorems say -/
 
